@@ -137,7 +137,7 @@ Fixpoint mg_run_fuel (fuel : nat) (g : movegen) : list move * movegen :=
            | (None, g') => ([], g')
            end
   end.
-Definition mg_run (g : movegen) : list move * movegen := mg_run_fuel 400 g.
+Definition mg_run (g : movegen) : list move * movegen := mg_run_fuel (drain_bound g) g.
 
 (* set_mask M1, drain, set_mask M2, drain, ... : everything yielded, and the final generator *)
 Fixpoint cover_run (g : movegen) (Ms : list N) : list move * movegen :=
